@@ -132,12 +132,19 @@ define(
     'C03', 'exploration',
     [('heapdict', None, True), ('tbrmmscore', None, False),
      ('tbrmmdesign', None, False),
-     mm(['exhaustive_search.skip_if_subset'])],
-    ENGINE_TRUST,
-    ['completeness of the enumeration is not yet discharged deductively: '
-     'bounded brute-force comparison stands in'],
-    'Top-k of pushed designs (HeapDict contracts + history lemma) and the '
-    'pattern-skip closure are proved; completeness/best-first of the '
+     mm(['exhaustive_search.skip_if_subset', 'treatment_group_size_range',
+         '_control_group_size_generator', 'treatment_group_generator',
+         'control_group_generator'])],
+    ENGINE_TRUST + ['itertools.combinations(S, r) produces every r-subset of '
+                    'S exactly once'],
+    ['that the nested loops of exhaustive_search push every enumerated design '
+     'that passes the filters (completeness of the search itself) is not '
+     'discharged deductively: bounded brute-force comparison stands in'],
+    'Proved: top-k of pushed designs (HeapDict contracts + history lemma), '
+    'designs ordered by the lexicographic score, the pattern-skip closure, '
+    'and exactness of the enumeration primitives (the size range, the control '
+    'size generator and both group generators yield exactly the admissible '
+    'sizes / legal groups).  Completeness and best-first of the whole '
     'exhaustive search against a brute-force oracle is a bounded run-time '
     'contract (<= 5-6 geos).',
     'DESIGN.md section 7, C03',
@@ -220,22 +227,25 @@ define(
          'treatment_group_generator', 'control_group_generator',
          'count_max_designs'])],
     ENGINE_TRUST + ['scipy.special.comb(n, k, exact=True) is the binomial '
-                    'coefficient (uninterpreted BINOM)'],
+                    'coefficient (uninterpreted BINOM)',
+                    'itertools.combinations(S, r) produces every r-subset of '
+                    'S exactly once'],
     ['the combinatorial identity |D| = SUM (class-composition count + '
      'Vandermonde) is pure mathematics outside the SMT solver: checked by the '
-     'bounded enumeration of the monitor; completeness of the two group '
-     'generators likewise'],
+     'bounded enumeration of the monitor'],
     'Proved for all inputs: count_max_designs returns the five-fold sum of '
     'binomial products restricted to admissible treatment sizes and control '
     'sizes (nested loop invariants over recursively defined partial sums); '
     'the size range is exactly [max(lo, n_min), min(hi, n_max)] and the '
     'control size generator yields exactly the admissible sizes (inclusive '
-    'geo ratio); the group generators are sound.  Equality of that sum with '
-    'the number of enumerated designs is a bounded run-time contract over all '
-    'eligibility multisets (<= 4-6 geos).',
+    'geo ratio); the two group generators yield exactly the legal groups of '
+    'an admissible size (loop invariants over the ghost set of yielded '
+    'groups; combinations() produces every subset once).  Equality of the '
+    'sum with the number of enumerated designs (a counting identity) is a '
+    'bounded run-time contract over all eligibility multisets (<= 4-6 geos).',
     'DESIGN.md section 7, C11',
-    'Level is the weaker (bounded) one: the counting identity and generator '
-    'completeness are not discharged deductively.')
+    'Level is the weaker (bounded) one: the counting identity is not '
+    'discharged deductively.')
 
 define(
     'C13', 'exploration',
